@@ -29,9 +29,10 @@ Record fixes := mkFixes {
   fx_reflect : bool;   (* blockage span of an instance reflected along the track *)
   fx_underflow : bool; (* validate_assign: checked `cross.layer - 1` *)
   fx_bounds : bool;    (* temp_cell: cut / assignment layer >= layout.metals is an Err *)
-  fx_odd : bool }.     (* via p1 = p0 + size, cut stop = start + cutsize *)
-Definition orig := mkFixes false false false false false.
-Definition fixed := mkFixes true true true true true.
+  fx_odd : bool;       (* via p1 = p0 + size, cut stop = start + cutsize *)
+  fx_raw : bool }.     (* export_stack: a metal or via layer without a raw layer is an Err (2026-10-02) *)
+Definition orig := mkFixes false false false false false false.
+Definition fixed := mkFixes true true true true true true.
 
 (** ** cell description *)
 Record cross := mkCross { x_tl : Z; x_tt : Z; x_cl : Z; x_ct : Z }.   (* track.(layer,track), cross.(layer,track) *)
@@ -326,12 +327,27 @@ Definition export_layout (fx : fixes) (vs : vstack) (c : cell) : res (list shape
   do r <- mapM (export_layer fx vs c vas) (zseq (c_metals c));
   Ok (concat r).
 
+(** RawExporter::export_stack: `rawlayers` and `boundary_layer` must be Some.
+    orig: nothing else is checked -- a metal / via layer with `raw: None` is met later by
+    `.raw.unwrap()` in export_track (Panic 540) and in the via of an assignment (Panic 541).
+    fixed (fix-stack-raw-layers): `for idx in 0..self.stack.pitches.len()` the metal
+    `self.stack.metal(idx)?` must have a raw layer, then every via layer of `self.stack.vias`. *)
+Definition export_stack (fx : fixes) (vs : vstack) : res unit :=
+  do _ <- assert (s_haslayers (vs_stack vs)) 560;
+  do _ <- assert (s_hasboundary (vs_stack vs)) 561;
+  if fx_raw fx then
+    do _ <- mapM (fun idx => do m <- metal_at vs idx;
+                    match m_raw (vm_spec m) with Some _ => Ok tt | None => Err 562 end)
+                 (zseq (zlen (vs_pitches vs)));
+    do _ <- mapM (fun v => match v_raw v with Some _ => Ok tt | None => Err 563 end) (s_vias (vs_stack vs));
+    Ok tt
+  else Ok tt.
+
 (** RawExporter::convert on a validated stack: validate every cell, export_stack, export every
     cell (library order = dependency order for the libraries considered) *)
 Definition convert (fx : fixes) (vs : vstack) (cells : list cell) : res (list (list shape)) :=
   do _ <- mapM (validate_layout fx vs) cells;
-  do _ <- assert (s_haslayers (vs_stack vs)) 560;
-  do _ <- assert (s_hasboundary (vs_stack vs)) 561;
+  do _ <- export_stack fx vs;
   mapM (export_layout fx vs) cells.
 
 (** Stack::validate followed by Library::to_raw *)
